@@ -70,6 +70,26 @@ def closed_chain(path, fixture, name_of, edges_set, nodes):
     return rec(1, fixture, [fixture])
 
 
+def name_level_explains(case, files, reported):
+    first = {}
+    for slot in case["order"]:
+        for i, it in enumerate(case["ws"][slot]["items"] or []):
+            if it["k"] == "def" and it["name"] not in first:
+                first[it["name"]] = ((slot, i + 1), [d for d in (it["deps"] or [])])
+    nodes = list(first)
+    edges = {(a, b) for a in nodes for b in first[a][1] if b in first}
+    comps = sccs(nodes, edges)
+    chains = []
+    for path, fx in reported:
+        names = list(path[:-1])
+        if not names or path[-1] != path[0] or fx != first.get(names[0], (None,))[0]:
+            return False
+        if any((names[i], names[(i + 1) % len(names)]) not in edges for i in range(len(names))):
+            return False
+        chains.append(set(names))
+    return all(any(ch <= comp for ch in chains) for comp in comps)
+
+
 def run(V, universes, semantics=True):
     C.build_harness()
     total_states = total_trans = replayed = 0
@@ -167,10 +187,13 @@ def run(V, universes, semantics=True):
                 if bad:
                     ex = dict(ex_base, reported=sorted(map(str, main)) if not isinstance(main, tuple) else main,
                               reference_cycles=[sorted(map(str, c)) for c in comps], blame=["cycle_name_level_graph"])
-                    if in_model:
+                    # known finding = the report is exactly what a NAME-level graph built from the first registered
+                    # definition of every name yields (sound and complete w.r.t. that graph, anchored on first
+                    # definitions) -- matched by this semantics, not by the DFS's exact output order
+                    if in_model or (not isinstance(main, tuple) and name_level_explains(case, files, main)):
                         V.classify(["cycle_name_level_graph"], ex, bad)
                     else:
-                        V.violation(ex, bad + " (not predicted by the model)")
+                        V.violation(ex, bad + " (not explained by the name-level graph of first definitions)")
                 # (d) run-to-run stability inside one process (fresh HashMap seeds)
                 key = lambda o: frozenset((frozenset(p[:-1]), fx) for p, fx in o) if not isinstance(o, tuple) else o
                 outs = {key(main)} | {key(x) for x in reps}
